@@ -38,6 +38,9 @@ RULE = (
     "history of >= 2 operations or a schedule with >= 1 pre-emption"
 )
 KINDS = ("msg1", "msg2", "parse", "reader")
+# operations whose observation must equal the reference of ANOTHER kind: the message a reader
+# hands out after the same reader has reported an error is the message the static parser gives
+EQUIV = {"reader-after-error": "parse"}
 
 
 def snapshot():
@@ -64,6 +67,19 @@ def observe(payload, kind):
             msg = RTCMMessage(payload=payload, labelmsm=2)
         elif kind == "parse":
             msg = RTCMReader.parse(pinned.frame(payload))
+        elif kind == "reader-after-error":
+            from mc.readerharness import lib_exceptions  # pylint: disable=import-outside-toplevel
+
+            frame = pinned.frame(payload)
+            bad = frame[:-1] + bytes([frame[-1] ^ 0x01])
+            rdr = RTCMReader(io.BytesIO(bad + frame), quitonerror=2)
+            try:
+                rdr.read()  # the damaged copy: raises in this mode; the caller carries on
+            except lib_exceptions():
+                pass
+            _raw, msg = rdr.read()
+            if msg is None:
+                return ("exc", "NoMessage", 0)
         else:
             errs = []
             rdr = RTCMReader(io.BytesIO(pinned.frame(payload) * 2), quitonerror=1,
@@ -73,6 +89,37 @@ def observe(payload, kind):
         return ("ok", core.h64(repr((msg.identity, R.public_attrs(msg), str(msg)))))
     except Exception as err:  # pylint: disable=broad-except
         return ("exc", type(err).__name__, core.h64(str(err)))
+
+
+def capacity_items():
+    out = []
+
+    def add(ident, shape, mode="fp"):
+        try:
+            payload, _o, _n = R.build(ident, shape, mode)
+        except (R.BadDefinition, R.TooLong):
+            return
+        out.append({"name": f"{ident}#{len(out)}", "payload": payload})
+
+    for k in range(300):  # distinct (constellation, level, satellite, signal, cell) combinations
+        num = pinned.MSM_NUMBERS[(k * 5) % len(pinned.MSM_NUMBERS)]
+        sat = (1 << 63) | (1 << (k % 61)) | (1 << ((k * 7) % 59))
+        sig = (1 << 30) | (1 << ((k * 3) % 29))
+        ncell = bin(sat).count("1") * bin(sig).count("1")
+        add(str(num), {"DF394": sat, "DF395": sig, "DF396": ((1 << ncell) - 1) ^ (k % (1 << ncell) >> 1)})
+    for k in range(200):
+        add("1005", {}, "fp")
+        out[-1]["payload"] = out[-1]["payload"][:2] + bytes([k & 0xFF, (k * 37) & 0xFF]) + out[-1]["payload"][4:]
+    for k in range(1, 120):
+        add("1029", {"DF139": k, "DF138": min(k, 127)})
+    for d in range(16):
+        for o in range(d + 1):
+            add("4076_201", {"IDF035": 0, "IDF037": d, "IDF038": o})
+    for a in range(1, 9):
+        for b in range(0, 6):
+            add("1059", {"DF387": a, "DF379": b})
+            add("4076_025", {"IDF010": a, "IDF023": b})
+    return out
 
 
 def _ref_one(args):
@@ -106,6 +153,7 @@ _REF = {}
 _SNAP0 = None
 
 
+@core.guard
 def judge(case):
     out = core.Outcome()
     if case["kind"] == "threads":
@@ -116,11 +164,12 @@ def judge(case):
     hist = case["history"]  # list of (payload, kind)
     for i, (payload, kind) in enumerate(hist):
         obs = observe(payload, kind)
-        want = _REF.get((payload, kind))
+        rkind = EQUIV.get(kind, kind)
+        want = _REF.get((payload, rkind))
         if want is None:
             # replay from a file / a case outside the enumeration: take the reference now, in a child
-            want = references([{"payload": payload}])[0][(payload, kind)]
-            _REF[(payload, kind)] = want
+            want = references([{"payload": payload}])[0][(payload, rkind)]
+            _REF[(payload, rkind)] = want
         if obs != want:
             sig = "result-depends-on-history"
             if obs[0] == "exc" and want[0] != "exc":
@@ -486,8 +535,10 @@ def run(tier, seed, t0):
             cases_.append({"kind": "hist", "history": [(it["payload"], k)], "snap_each": True})
     for a, b in itertools.product(corp, repeat=2):
         cases_.append({"kind": "hist", "history": [(a["payload"], "msg1"), (b["payload"], "msg1")]})
+    for it in corp:
+        cases_.append({"kind": "hist", "history": [(it["payload"], "reader-after-error")], "snap_each": True})
     for a, b in itertools.product(conflict, repeat=2):
-        for ka, kb in itertools.product(KINDS, repeat=2):
+        for ka, kb in itertools.product(KINDS + ("reader-after-error",), repeat=2):
             if (ka, kb) != ("msg1", "msg1"):
                 cases_.append({"kind": "hist", "snap_each": True,
                                "history": [(a["payload"], ka), (b["payload"], kb)]})
@@ -495,6 +546,15 @@ def run(tier, seed, t0):
     for a, b, c in itertools.product(tri, repeat=3):
         cases_.append({"kind": "hist", "history": [(a["payload"], "msg1"), (b["payload"], "msg2"),
                                                    (c["payload"], "msg1")]})
+    # capacity sweeps: ONE process parses several hundred DISTINCT payloads one after the other
+    # (distinct MSM mask / label combinations, distinct text, counts, harmonic degrees) and then
+    # all of them again in reverse: a bounded memo, however well keyed, meets its capacity
+    sweep = capacity_items()
+    ref3, _s3 = references(sweep)
+    _REF.update(ref3)
+    order = [(it["payload"], ("msg1", "msg2", "parse")[k % 3]) for k, it in enumerate(sweep)]
+    cases_.append({"kind": "hist", "history": order + order[::-1]})
+    cases_.append({"kind": "hist", "history": order[::2] + order[1::2] + order[::3]})
     # cold two-thread explorations first: this process has parsed nothing so far, each work item
     # gets a fresh fork of it (maxtasksperchild=1) and forks again for every schedule
     crefs = {p: _REF[(p, "msg1")] for p in cold_payloads()}
